@@ -313,7 +313,9 @@ func generate(rng *rand.Rand, k Knobs, profile string) *Prog {
 				}
 				t.Entries = append(t.Entries, en)
 			case r < k.PCall+k.PDefer && t.XVia != "env":
-				t.Entries = append(t.Entries, &Entry{Kind: DeferCmd, DeferFail: rng.Float64() < k.PDeferFail})
+				en := &Entry{Kind: DeferCmd, DeferFail: rng.Float64() < k.PDeferFail}
+				en.BadTmpl = k.PDeferFail > 0 && rng.Intn(8) == 0
+				t.Entries = append(t.Entries, en)
 			case canCall && r < k.PCall+k.PDefer+k.PDeferCall:
 				j := pickTarget(i)
 				if j < 0 || p.Tasks[j].Run == WhenChanged {
